@@ -174,7 +174,21 @@ CrossBad10 == { Single("$replace", Mk2("$match", Single("id", I("7")), "$path", 
                 Single("$replace", L(<<Mk2("$invert", True, "id", I("1")), S("t")>>)),
                 Single("$replace", L(<<EmptyMap, S("t")>>)) }
 
+(* three-level chains host -> mid -> base by map-form $merge; the host's     *)
+(* local value at a key may be a scalar, null, map or list where the        *)
+(* referenced subtrees hold containers; evaluating the host must not        *)
+(* disturb mid or base, whatever the key order                              *)
+Chain10(hk, mk, bk, local, midv, basev) ==
+  M(hk :> Mk2("$merge", S(mk), "opts", local) @@ mk :> Mk2("$merge", S(bk), "opts", midv) @@ bk :> Single("opts", basev))
+ChainVals == {I("5"), Null, Single("flags", L(<<S("h")>>)), L(<<S("lh")>>), Single("other", I("1"))}
+ChainConts == {Single("flags", L(<<S("m")>>)), L(<<S("lm")>>), Mk2("flags", L(<<S("m")>>), "deep", Single("k", I("1")))}
+ChainNames == { <<"host", "mid", "base">>, <<"zhost", "mid", "base">>, <<"host", "mid", "zbase">>, <<"b", "c", "a">> }
+CasesChain10 ==
+  {CaseX(<<Chain10(n[1], n[2], n[3], lv, mv, bv)>>, NoEnv, "mergechain", n)
+     : n \in ChainNames, lv \in ChainVals, mv \in ChainConts, bv \in ChainConts}
+
 CasesC10 ==
+  CasesChain10 \cup
   {Case(<<DocC10(p[1])>>, NoEnv, "ref") : p \in Pairs10}
   \cup {Case(<<DocC10(p[2])>>, NoEnv, "inline") : p \in Pairs10}
   \cup {Case(<<DocC10(Mk2("a", p[1], "b", S("$replace:h.a")))>>, NoEnv, "chain") : p \in ChainPairs10}
@@ -195,6 +209,11 @@ LawC10(cs) ==
             /\ a.ok
             /\ Has(HostOf(a), "a") = Has(HostOf(a), "b")
             /\ Has(HostOf(a), "a") => At(HostOf(a), "a") = At(HostOf(a), "b")
+    [] cs.tag = "mergechain" ->
+         (* the document without the host evaluates mid and base to the same values *)
+         LET full == Eval1(cs.docs[1])
+             rest == Eval1(Del(cs.docs[1], cs.aux[1]))
+         IN full.ok => (rest.ok /\ \A k \in {cs.aux[2], cs.aux[3]} : At(full.v[1], k) = At(rest.v[1], k))
     [] cs.tag \in {"bad", "crossbad"} -> ~EvalS(cs.docs, NoEnv).ok
     [] cs.tag = "cross" ->
          \E p \in Cross10 : cs.docs[1] = Mk2("id", I("1"), "h", p[1]) /\
@@ -330,7 +349,7 @@ LawC13(cs) ==
 (* C08: reference graphs on three named subtrees; every node has at most    *)
 (* one outgoing reference, in every form                                    *)
 Nodes08 == {"x", "y", "z"}
-Forms08 == {<<"plain", "">>} \cup {<<f, t>> : f \in {"mapmerge", "mapreplace", "strmerge", "listmerge", "interp"}, t \in Nodes08}
+Forms08 == {<<"plain", "">>} \cup {<<f, t>> : f \in {"mapmerge", "mapreplace", "strmerge", "listmerge", "listreplace", "interp"}, t \in Nodes08}
             \cup {<<"selfwhole", "">>}
 Node08(f) ==
   CASE f[1] = "plain" -> Single("v", I("1"))
@@ -338,6 +357,7 @@ Node08(f) ==
     [] f[1] = "mapreplace" -> Single("$replace", S(f[2]))
     [] f[1] = "strmerge" -> S("$merge:" \o f[2])
     [] f[1] = "listmerge" -> L(<<Single("$merge", S(f[2])), I("9")>>)
+    [] f[1] = "listreplace" -> L(<<I("8"), Single("$replace", S(f[2]))>>)
     [] f[1] = "interp" -> S("$\"<{" \o f[2] \o "}>\"")
     [] f[1] = "selfwhole" -> Mk2("$merge", EmptyList, "own", I("1"))
 CasesC08 ==
@@ -356,7 +376,7 @@ Reach08(aux, n, k) == IF k = 0 \/ n = "" THEN {} ELSE {EdgeOf(aux, n)} \cup Reac
 OnCycle(aux, n) == n \in Reach08(aux, n, 3)
 (* a cycle made only of forms that keep the reference in place while it is followed *)
 StrictCycle(aux) == \E n \in Nodes08 : OnCycle(aux, n) /\
-                      \A k \in (Reach08(aux, n, 3) \cap Nodes08) : OnCycle(aux, k) => FormOf(aux, k) \in {"mapreplace", "strmerge", "interp"}
+                      \A k \in (Reach08(aux, n, 3) \cap Nodes08) : OnCycle(aux, k) => FormOf(aux, k) \in {"mapreplace", "strmerge", "listreplace", "interp"}
 Acyclic(aux) == \A n \in Nodes08 : ~OnCycle(aux, n)
 LawC08(cs) ==
   LET r == EvalS(cs.docs, NoEnv) IN
